@@ -57,6 +57,37 @@ pub struct World {
     pub initial_fails: Vec<Fail>,
 }
 
+/// `<!ATTLIST el att CDATA "v">` and `#FIXED "v"` declarations of the internal subset (the forms the generator writes)
+pub fn parse_attlist_defaults(text: &str) -> Vec<(String, String, String)> {
+    let mut out = vec![];
+    let mut rest = text;
+    while let Some(i) = rest.find("<!ATTLIST ") {
+        rest = &rest[i + 10..];
+        let end = match rest.find('>') {
+            Some(e) => e,
+            None => break,
+        };
+        let decl = &rest[..end];
+        let mut it = decl.split_whitespace();
+        let (el, att, _ty) = match (it.next(), it.next(), it.next()) {
+            (Some(a), Some(b), Some(c)) => (a, b, c),
+            _ => continue,
+        };
+        // default value: the first quoted string of the declaration
+        if decl.contains("#IMPLIED") || decl.contains("#REQUIRED") {
+            continue;
+        }
+        let q = decl.find(|c| c == '"' || c == '\'');
+        if let Some(q) = q {
+            let quote = decl.as_bytes()[q] as char;
+            if let Some(e) = decl[q + 1..].find(quote) {
+                out.push((el.to_string(), att.to_string(), decl[q + 1..q + 1 + e].to_string()));
+            }
+        }
+    }
+    out
+}
+
 fn sig_of(d: &XmlDocument) -> String {
     let mut s = format!("{}", d);
     let mut stack = vec![d.as_node()];
@@ -272,7 +303,7 @@ impl World {
                     ents.push((e.node_name(), String::new()));
                 }
             }
-            model.docs.push(MDoc { root, entities: ents, expanded: d.expanded, xml_decl: None, twin_of: None });
+            model.docs.push(MDoc { root, entities: ents, expanded: d.expanded, xml_decl: None, twin_of: None, defaults: parse_attlist_defaults(&d.text) });
             model.adopt(root, &obs);
         }
         // recursive adoption of the whole parsed tree
@@ -371,6 +402,24 @@ impl World {
         } else {
             self.model.set_slot(out, MSlot::Node(m));
         }
+    }
+
+    /// lookup of an attribute that exists only through a DTD default: the handle is a synthesized node (id 0)
+    fn default_lookup(&mut self, e: Mid, name: &str, rkey: Option<Key>, out: S, what: &str, fails: &mut Vec<Fail>) -> bool {
+        if self.model.find_attr(e, name).is_some() {
+            return false;
+        }
+        let has_default = self.model.default_attrs(e).iter().any(|(k, _)| k == name);
+        if !has_default {
+            return false;
+        }
+        match rkey {
+            Some(k) if k.id == 0 => {}
+            other => fails.push(Fail::new("C12", "navigation", format!("{}({:?}) returned {:?} but the element has that attribute through a DTD default", what, name, other))),
+        }
+        self.model.clear_slot(out);
+        self.real.clear(out);
+        true
     }
 
     /// which handles of a snapshot slot are merged text nodes
@@ -623,6 +672,9 @@ impl World {
             }
         }
 
+        if post_raw.values().any(|n| n.attrs.iter().any(|a| a.key.id == 0)) {
+            rep.probes.push("dtd_default_attribute_visible");
+        }
         self.last = post_raw;
         if !tree_broken {
             self.last_ser = post_ser;
@@ -860,6 +912,12 @@ impl World {
                     Some(MSlot::Map(e)) => *e,
                     _ => return,
                 };
+                if self.model.find_attr(e, name).is_none() && plan.no_effect {
+                    // defaulted attribute: nothing changes, the returned node is a synthesized one
+                    self.model.clear_slot(*out);
+                    self.real.clear(*out);
+                    return;
+                }
                 let prev = self.model.apply_remove_attr(e, name);
                 self.bind_out(*out, rkey, prev, "remove_named_item", "C13", fails);
             }
@@ -898,7 +956,13 @@ impl World {
             }
             Op::CreateElement { doc, name, out } => {
                 let _ = plan;
-                self.new_node(Kind::Element, local_of(name), "", *doc, rkey, *out, fails);
+                if let Some(m) = self.new_node(Kind::Element, local_of(name), "", *doc, rkey, *out, fails) {
+                    if let Some((p, _)) = name.split_once(':') {
+                        if !p.is_empty() {
+                            self.model.nodes[m].prefix = Some(p.to_string());
+                        }
+                    }
+                }
                 if plan.any_err {
                     // odd name accepted: adopt whatever was built
                     if let (Some(m), Some(k)) = (self.model.node_slot(*out), rkey) {
@@ -1187,6 +1251,9 @@ impl World {
                     Some(MSlot::Map(e)) => *e,
                     _ => return,
                 };
+                if self.default_lookup(e, name, rkey, *out, "get_named_item", fails) {
+                    return;
+                }
                 let exp = self.model.find_attr(e, name);
                 let mut f = vec![];
                 self.bind_out(*out, rkey, exp, "get_named_item", "C12", &mut f);
@@ -1204,6 +1271,9 @@ impl World {
                         return;
                     }
                 };
+                if self.default_lookup(e, name, rkey, *out, "get_attribute_node", fails) {
+                    return;
+                }
                 let exp = self.model.find_attr(e, name);
                 let mut f = vec![];
                 self.bind_out(*out, rkey, exp, "get_attribute_node", "C12", &mut f);
